@@ -113,7 +113,7 @@ REGISTRY = {
         "assumptions": [EXTERNAL, "reverse ntHash seed of a base = forward seed of its complement (compared on every generated window)"],
     },
     "C02": {
-        "level": "proof", "modules": ["SkaModel.Props.C02", "SkaModel.Props.EndToEnd"], "gen": ["C02"], "cli": [cli.c02_cli, cli.c02_deep_cli],
+        "level": "proof", "modules": ["SkaModel.Props.C02", "SkaModel.Props.EndToEnd"], "gen": ["C02"], "cli": [cli.c02_cli, cli.c02_deep_cli, cli.joint_reads_cli],
         "rule": "record sets of C01 x transformations (record permutation, random case mask, per-record reverse complement when strands are merged, all together); in-process metamorphic comparison + CLI runs on re-wrapped/gzip-compressed/permuted files; non-trivial = distinct case lines yielding at least one k-mer",
         "trusted_base": COMMON_TRUST, "assumptions": [EXTERNAL, "gzip decompression and FASTA line joining (needletail) are exercised through the CLI only"],
     },
@@ -133,12 +133,12 @@ REGISTRY = {
         "trusted_base": COMMON_TRUST, "assumptions": [EXTERNAL, "noodles-vcf text rendering is trusted"],
     },
     "C11": {
-        "level": "proof", "modules": ["SkaModel.Props.C11", "SkaModel.Props.C11Offsets", "SkaModel.Props.C18Derep", "SkaModel.Props.C17Pipe", "SkaModel.Props.C17Ref"], "gen": [], "cli": [cli.c11_cli],
+        "level": "proof", "modules": ["SkaModel.Props.C11", "SkaModel.Props.C11Offsets", "SkaModel.Props.C18Derep", "SkaModel.Props.C17Pipe", "SkaModel.Props.C17Ref", "SkaModel.Props.C17Union"], "gen": [], "cli": [cli.c11_cli, cli.joint_reads_cli],
         "rule": "CLI matrix subcommand x input kind x threads x repetitions x sample counts on both sides of the 10-samples-per-thread rule (each process draws fresh hash seeds); non-trivial = distinct (sample count) families compared",
         "trusted_base": COMMON_TRUST, "assumptions": [EXTERNAL, "actual rayon scheduling and DashMap interleavings are sampled by the matrix, not proved"],
     },
     "C06": {
-        "level": "proof", "modules": ["SkaModel.Props.C06"], "gen": ["C06"], "cli": [cli.make_hist_cli("C06", 40, 400), cli.freq_sweep_cli],
+        "level": "proof", "modules": ["SkaModel.Props.C06"], "gen": ["C06"], "cli": [cli.make_hist_cli("C06", 40, 400), cli.freq_sweep_cli, cli.c06_big_cli],
         "rule": "random tables (1-12 samples, 0-13 rows, bases/gaps/ambiguity codes at several densities) x align observers over all four site filters, all flag combinations, thresholds 0..n, run through generic_modes::align with save/reload; non-trivial = distinct case lines with at least one emitted column",
         "trusted_base": COMMON_TRUST, "assumptions": [EXTERNAL, "the float expression ceil(n*min_freq) is glue: thresholds are passed as min_freq=(t-1/2)/n"],
     },
@@ -158,13 +158,13 @@ REGISTRY = {
         "trusted_base": COMMON_TRUST, "assumptions": [EXTERNAL, "Snappy compression (write side) and serde derive are exercised, not modelled"],
     },
     "C17": {
-        "level": "proof", "modules": ["SkaModel.Props.C17", "SkaModel.Props.C17Pipe", "SkaModel.Props.C17Paths", "SkaModel.Props.C17Real", "SkaModel.Props.C17Ref", "SkaModel.Props.C17Complete", "SkaModel.Props.C17RefComplete", "SkaModel.Props.C18Derep"], "gen": ["C17"], "cli": [cli.c17_cli],
+        "level": "proof", "modules": ["SkaModel.Props.C17", "SkaModel.Props.C17Pipe", "SkaModel.Props.C17Paths", "SkaModel.Props.C17Real", "SkaModel.Props.C17Ref", "SkaModel.Props.C17Complete", "SkaModel.Props.C17RefComplete", "SkaModel.Props.C18Derep", "SkaModel.Props.C17Union"], "gen": ["C17"], "cli": [cli.c17_cli],
         "rule": "helper inputs (columns over A/C/G/T/-/N, variant groups, writer inputs with and without a genome) vs the model; build_graph on canonical tables vs the model; the reference-free pipeline in-process (entry nodes, every variant group with sequences and marked positions, SNP columns, indel records) vs the model on ska-build tables of SNP/indel families and on dense random tables, one process per case; CLI: planted isolated-SNP families ((k-1)-mers unique on both strands, checked; SNPs >= 2k apart and from the ends; 3-10 samples; k 7-33; threads 1-8; with and without reference) with expected = planted truth, and arbitrary families (close SNPs, indels, missing data, several -m) for well-formedness; non-trivial = distinct helper cases with a value / families that ran",
         "trusted_base": COMMON_TRUST + ["hooked private helpers (feature verif-hooks): complement_snp, get_potential_snp, create_fasta_and_vcf, check_missing_data; the guarded sink record_groups in build_variant_groups"],
         "assumptions": [EXTERNAL, "completeness is proved for the reference-free caller (T17_complete) and, with the ancestor as reference, true coordinates / alleles / pseudo-genomes under SiteOK (T17_ref_complete, T17_ref_output); other references are decided by oracle runs; the pipeline model is tied to the code by correspondence, not by translation"],
     },
     "C18": {
-        "level": "proof", "modules": ["SkaModel.Props.C18", "SkaModel.Props.C18Derep", "SkaModel.Props.C17Pipe", "SkaModel.Props.C17Paths", "SkaModel.Props.C18Complete"], "gen": ["C18"], "cli": [cli.c18_cli],
+        "level": "proof", "modules": ["SkaModel.Props.C18", "SkaModel.Props.C18Derep", "SkaModel.Props.C17Pipe", "SkaModel.Props.C17Paths", "SkaModel.Props.C18Complete", "SkaModel.Props.C17Union"], "gen": ["C18"], "cli": [cli.c18_cli],
         "rule": "insert extraction and de-replication inputs (shared entry k-mers, equal lengths, reverse-strand twins) vs the model; the reference-free pipeline in-process vs the model on indel-rich families and dense random tables (see C17); CLI: planted isolated indels (length 1-10, >= 4k apart, (k-1)-mers unique per sample), k in {11,15,21,31}, 3-8 samples, threads 1-4; every VCF record checked by substring search (carriers of REF/ALT exactly the genotyped samples, one planted indel each, none twice), recall measured; non-trivial = families that ran",
         "trusted_base": COMMON_TRUST + ["hooked private helpers (feature verif-hooks): extract_middle_bases, dereplicate_indels; the guarded sink record_groups in build_variant_groups"],
         "assumptions": [EXTERNAL, "T18_complete covers planted indels whose insert can slide by at most k-3 positions; indels with shift k-2 are never reported by the program (the short path is entry -> exit directly): they are the tolerated loss, and the 90% recall over random planted families is measured, not proved; the pipeline model is tied to the code by correspondence, not by translation"],
@@ -175,7 +175,7 @@ REGISTRY = {
         "trusted_base": COMMON_TRUST, "assumptions": [EXTERNAL, "flips inside compressed payloads / chunk type / length bytes are decided per file by enumeration, not by theorem (2^-32 CRC events)"],
     },
     "C12": {
-        "level": "proof", "modules": ["SkaModel.Props.C12", "SkaModel.Props.C12Spec"], "gen": ["C12"], "cli": [cli.c12_cli, cli.auto_mincount_cli],
+        "level": "proof", "modules": ["SkaModel.Props.C12", "SkaModel.Props.C12Spec"], "gen": ["C12"], "cli": [cli.c12_cli, cli.auto_mincount_cli, cli.joint_reads_cli],
         "rule": "paired FASTQ read sets drawn from a small genome on both strands with errors and N, lengths k..3k, qualities at min_qual-1/min_qual/min_qual+1, min-count 1-6 (counts hit c-1, c, c+1 across files and strands), min-qual 0-40, three quality rules, k in {5..63}, both strand modes, self-reverse-complement arms; non-trivial = distinct case lines yielding at least one k-mer",
         "trusted_base": COMMON_TRUST, "assumptions": [EXTERNAL, "exactness is stated under the no-collision hypothesis (ntHash injective on the observed k-mers, no Bloom false positive among them); the collision rate is measured, not proved"],
     },
